@@ -5,6 +5,7 @@ package nodenumaresource
 import (
 	"context"
 	"fmt"
+	"os"
 	"sort"
 	"strconv"
 	"strings"
@@ -15,6 +16,7 @@ import (
 	"k8s.io/apimachinery/pkg/api/resource"
 	metav1 "k8s.io/apimachinery/pkg/apis/meta/v1"
 	"k8s.io/apimachinery/pkg/types"
+	"k8s.io/client-go/tools/cache"
 	"k8s.io/kubernetes/pkg/scheduler/framework"
 
 	"github.com/koordinator-sh/koordinator/apis/extension"
@@ -279,6 +281,10 @@ type c19Obj struct {
 	term  bool
 }
 
+// c19TombNumaResv gates the tombstone shape for deletes of RESERVATIONS (see the suspected defect noted at
+// Close): with VERIF_C19_TOMB_NUMARESV=1 about 2 in 5 Reservation deletes arrive as DeletedFinalStateUnknown.
+var c19TombNumaResv = os.Getenv("VERIF_C19_TOMB_NUMARESV") == "1"
+
 func TestVerifC19Numa(t *testing.T) {
 	h := vOpen("C19")
 	if h == nil {
@@ -354,25 +360,47 @@ func TestVerifC19Numa(t *testing.T) {
 			}
 			return ls
 		}
-		deliver := func(eh *podEventHandler, cache, kind, uid int) {
+		// c19Del: the shape in which client-go hands a delete to OnDelete: the object pointer, or (a delete
+		// missed during a relist) cache.DeletedFinalStateUnknown{Key, Obj} BY VALUE, about 2 in 5.  The choice
+		// is always drawn (replays do not depend on the gate); `enabled` = false keeps the plain shape.
+		delShape := func(obj interface{}, enabled bool, what string) interface{} {
+			tomb := r.Chance(2, 5)
+			if tomb && !enabled {
+				h.Tag("del:tombstone-gated-off:" + what)
+				tomb = false
+			}
+			if !tomb {
+				h.Tag("del:plain")
+				h.Tag("del:plain:" + what)
+				return obj
+			}
+			h.Tag("del:tombstone")
+			h.Tag("del:tombstone:" + what)
+			key, _ := cache.MetaNamespaceKeyFunc(obj) // ns/name (a Reservation is cluster-scoped: name)
+			return cache.DeletedFinalStateUnknown{Key: key, Obj: obj}
+		}
+		deliver := func(eh *podEventHandler, cacheID, kind, uid int) {
 			o := objs[uid]
-			h.Op("numa ev %d %d %d", cache, kind, uid)
+			h.Op("numa ev %d %d %d", cacheID, kind, uid)
 			if h.Guard(func() {
 				if o.resv != nil {
-					// Reservations reach the same handler through the reservation informer's adapter
+					// Reservations reach the same handler through the reservation informer's adapter: exactly the
+					// handler registerPodEventHandler registers (FilteringResourceEventHandler{IsObjValidActiveReservation}
+					// around ReservationToPodEventHandler around the pod handler)
 					rh := reservationutil.NewReservationToPodEventHandler(eh, reservationutil.IsObjValidActiveReservation)
 					switch kind {
 					case 0:
 						rh.OnAdd(o.resv.DeepCopy(), false)
 					case 1:
 						old := o.resv
-						if o.prev != nil && cache == 0 {
+						if o.prev != nil && cacheID == 0 {
 							old = o.prev // the live scheduler saw the active version before
 							o.prev = nil
 						}
 						rh.OnUpdate(old.DeepCopy(), o.resv.DeepCopy())
 					case 2:
-						rh.OnDelete(o.resv.DeepCopy())
+						// the model does not distinguish the two shapes: the same release is expected
+						rh.OnDelete(delShape(o.resv.DeepCopy(), c19TombNumaResv, "resv"))
 					}
 					return
 				}
@@ -382,15 +410,64 @@ func TestVerifC19Numa(t *testing.T) {
 				case 1:
 					eh.OnUpdate(o.pod.DeepCopy(), o.pod.DeepCopy())
 				case 2:
-					eh.OnDelete(o.pod.DeepCopy())
+					eh.OnDelete(delShape(o.pod.DeepCopy(), true, "pod"))
 				}
 			}) {
 				h.Obs("panic")
 			}
 		}
+		// degenerate delete events: a tombstone whose Obj is not what the handler expects (another type, nil, a
+		// typed nil pointer), or a bare object of a foreign type.  Delivered to BOTH registered entry points (the
+		// pod handler and the reservation adapter).  They must be ignored: no op line, the ledger is unchanged.
+		badDelete := func(eh *podEventHandler) {
+			key := "default/p0"
+			if us := liveUIDs(); len(us) > 0 && r.Bool() {
+				o := objs[us[r.Intn(len(us))]]
+				key = o.pod.Namespace + "/" + o.pod.Name // the key of an existing object does not make the event valid
+				if o.resv != nil && r.Bool() {
+					key = o.resv.Name
+				}
+			}
+			var forPod, forResv interface{}
+			v := r.Intn(5)
+			switch v {
+			case 0: // Obj of a foreign type
+				forPod = cache.DeletedFinalStateUnknown{Key: key, Obj: &corev1.Node{ObjectMeta: metav1.ObjectMeta{Name: c19NodeName}}}
+				forResv = forPod
+			case 1: // Obj nil
+				forPod = cache.DeletedFinalStateUnknown{Key: key}
+				forResv = forPod
+			case 2: // typed nil pointer of the expected type
+				forPod = cache.DeletedFinalStateUnknown{Key: key, Obj: (*corev1.Pod)(nil)}
+				forResv = cache.DeletedFinalStateUnknown{Key: key, Obj: (*schedulingv1alpha1.Reservation)(nil)}
+			case 3: // each handler gets the other informer's type inside the tombstone
+				forPod = cache.DeletedFinalStateUnknown{Key: key, Obj: &schedulingv1alpha1.Reservation{ObjectMeta: metav1.ObjectMeta{Name: "r0"}}}
+				forResv = cache.DeletedFinalStateUnknown{Key: key, Obj: &corev1.Pod{ObjectMeta: metav1.ObjectMeta{Namespace: "default", Name: "p0"},
+					Spec: corev1.PodSpec{NodeName: c19NodeName}}}
+			default: // a bare foreign object / an untyped nil
+				forPod = &corev1.Node{ObjectMeta: metav1.ObjectMeta{Name: c19NodeName}}
+				forResv = nil
+			}
+			if h.Guard(func() {
+				eh.OnDelete(forPod)
+				reservationutil.NewReservationToPodEventHandler(eh, reservationutil.IsObjValidActiveReservation).OnDelete(forResv)
+			}) {
+				h.Obs("panic")
+				h.Fail("C19:numa-tombstone-badobj", "a delete event with a malformed payload (variant %d) panicked", v)
+			}
+			h.Tag("del:tombstone-badobj")
+			h.Tag(fmt.Sprintf("del:tombstone-badobj:%d", v))
+		}
 
 		steps := r.Range(2, 10)
 		for s := 0; s < steps; s++ {
+			if r.Chance(1, 12) { // ---- degenerate delete event: ignored, the ledger (dumped) is unchanged
+				before := c19Dump(liveRM)
+				badDelete(liveH)
+				if after := dumpLive(); !c19SameLines(before, after) {
+					h.Fail("C19:numa-tombstone-badobj", "a delete event with a malformed payload changed the live ledger: before=%v after=%v", before, after)
+				}
+			}
 			us := liveUIDs()
 			k := r.Intn(20)
 			switch {
@@ -720,8 +797,18 @@ func TestVerifC19Numa(t *testing.T) {
 					extras++
 				}
 			}
-			for _, e := range evs {
+			badAt := -1
+			if r.Chance(1, 8) {
+				badAt = r.Intn(len(evs) + 1)
+			}
+			for i, e := range evs {
+				if i == badAt {
+					badDelete(fh)
+				}
 				deliver(fh, 1, e.kind, e.uid)
+			}
+			if badAt == len(evs) {
+				badDelete(fh)
 			}
 			h.Op("numa dump 1")
 			got := c19Dump(fresh)
@@ -826,7 +913,7 @@ func TestVerifC19Numa(t *testing.T) {
 		}
 		h.End()
 	}
-	h.Close("history of bind (real Reserve+PreBind on a pod, or Reserve(NewReservePod)+PreBindReservation on a Reservation with its resource spec on the template or on itself) / delete / terminate / same-allocation update / duplicate add / hand-made objects on a 1-16 CPU topology (maxRef 1-3, CPU reuse as for reservation owners, NUMA amounts incl. zero and absent keys), cut anywhere, then two shuffled replays with duplicates into fresh caches. Non-trivial = >= 2 surviving allocations")
+	h.Close("history of bind (real Reserve+PreBind on a pod, or Reserve(NewReservePod)+PreBindReservation on a Reservation with its resource spec on the template or on itself) / delete / terminate / same-allocation update / duplicate add / hand-made objects on a 1-16 CPU topology (maxRef 1-3, CPU reuse as for reservation owners, NUMA amounts incl. zero and absent keys), cut anywhere, then two shuffled replays with duplicates into fresh caches. Event shapes: every delete goes to the registered OnDelete entry point (pod handler; FilteringResourceEventHandler+ReservationToPodEventHandler for Reservations), 2/5 of the pod deletes as cache.DeletedFinalStateUnknown{Key,Obj} by value (Reservation deletes too when VERIF_C19_TOMB_NUMARESV=1; gated off by default: the IsObjValidActiveReservation filter rejects the tombstone before the adapter's type switch, so the Reservation's CPUs stay taken in the live ledger); 1/12 of the steps and 1/8 of the replays add a degenerate delete (tombstone with a foreign-type / nil / typed-nil Obj, bare foreign object) that must change nothing. Non-trivial = >= 2 surviving allocations")
 }
 
 func c19Lg(n int) int {
